@@ -44,6 +44,7 @@ ModelAct(ev) ==
       [] ev.e = "Disconnect" -> UserDisconnect
       [] ev.e = "SendIq"     -> SendIq
       [] ev.e = "Hdr"        -> ServerHeader(ev.versioned)
+      [] ev.e = "Partial"    -> ServerPartial(ev.what)
       [] OTHER               -> ServerElement(ElemOf(ev))
 
 \* observed output without the stream-management chatter that ClientStream does not model
